@@ -240,8 +240,8 @@ func Judge(module string, events [][]byte, extra map[string][]byte) (JudgeResult
 	curOff := 0
 	lastCfg := -1
 	for i := 0; i < len(events); i++ {
-		isCfg := kinds[i] == "Config" || kinds[i] == "Schema"
-		boundary := isCfg || caseStartKinds[kinds[i]]
+		isCfg := kinds[i] == "Config" || kinds[i] == "Schema" || kinds[i] == "Cases"
+		boundary := isCfg || (caseStartKinds[kinds[i]] && module != "Trace_Concurrent") // a round of interleaved requests stays whole
 		if boundary && len(cur) >= target {
 			chunks = append(chunks, chunk{cur, curOff})
 			cur = nil
